@@ -80,21 +80,25 @@ pub fn predicate_pushdown_rules() -> Vec<Rewrite> { vec![
         "(join ?type (and ?cond1 ?cond2) ?left ?right)" =>
         "(join ?type ?cond2 (filter ?cond1 ?left) ?right)"
         if not_depend_on("?cond1", "?right")
+        if join_drops_unmatched_left("?type")
     ),
     rw!("pushdown-join-condition-left-1";
         "(join ?type ?cond1 ?left ?right)" =>
         "(join ?type true (filter ?cond1 ?left) ?right)"
         if not_depend_on("?cond1", "?right")
+        if join_drops_unmatched_left("?type")
     ),
     rw!("pushdown-join-condition-right";
         "(join ?type (and ?cond1 ?cond2) ?left ?right)" =>
         "(join ?type ?cond2 ?left (filter ?cond1 ?right))"
         if not_depend_on("?cond1", "?left")
+        if join_drops_unmatched_right("?type")
     ),
     rw!("pushdown-join-condition-right-1";
         "(join ?type ?cond1 ?left ?right)" =>
         "(join ?type true ?left (filter ?cond1 ?right))"
         if not_depend_on("?cond1", "?left")
+        if join_drops_unmatched_right("?type")
     ),
     rw!("pushdown-filter-apply-left";
         "(filter ?cond (apply ?type ?left ?right))" =>
@@ -482,6 +486,26 @@ fn not_depend_on(expr: &str, plan: &str) -> impl Fn(&mut EGraph, Id, &Subst) -> 
         let used = &egraph[subst[expr]].data.columns;
         let produced = produced(egraph, subst[plan]).collect();
         used.is_disjoint(&produced)
+    }
+}
+
+/// Returns true if a left row without a match is dropped by this join type. Only then a
+/// condition on the left input can be turned into a filter on it: an outer join that preserves
+/// the left side pads such a row with NULLs, and an anti join returns it.
+fn join_drops_unmatched_left(join_type: &str) -> impl Fn(&mut EGraph, Id, &Subst) -> bool {
+    let join_type = var(join_type);
+    move |egraph, _, subst| {
+        let mut nodes = egraph[subst[join_type]].nodes.iter();
+        nodes.any(|e| matches!(e, Expr::Inner | Expr::RightOuter | Expr::Semi))
+    }
+}
+
+/// Returns true if a right row without a match is dropped by this join type.
+fn join_drops_unmatched_right(join_type: &str) -> impl Fn(&mut EGraph, Id, &Subst) -> bool {
+    let join_type = var(join_type);
+    move |egraph, _, subst| {
+        let mut nodes = egraph[subst[join_type]].nodes.iter();
+        nodes.any(|e| matches!(e, Expr::Inner | Expr::LeftOuter | Expr::Semi | Expr::Anti))
     }
 }
 
